@@ -1,0 +1,12 @@
+//go:build verif
+
+package verifx
+
+import "github.com/renbou/grpcbridge/internal/gwquery"
+
+// QueryFilterHasCommonPrefix builds the query-parameter filter the request transcoder uses
+// (gwquery.PrefixFilter over the body path and path-parameter names) and asks it about seq.
+func QueryFilterHasCommonPrefix(seqs [][]string, seq []string) bool {
+	var f gwquery.Filter = gwquery.PrefixFilter(seqs)
+	return f.HasCommonPrefix(seq)
+}
